@@ -18,7 +18,7 @@ ID = "C35"
 LEVEL = "exploration"
 TECHNIQUE = "bounded exhaustive enumeration of configurations x payload sequences x segmentations x single-byte corruptions"
 RULE = ("(packets) every cipher (8 offered + none) x MAC (5 offered + none) x compression (none, zlib): single payloads of "
-        "every length 0..2*blocksize+1 and pairs/triples over {0, pad-min, pad-max, 300 zeros, 300 pseudo-random} bytes, "
+        "every length 0..2*blocksize+1, one of 70000 bytes, and pairs/triples over {0, pad-min, pad-max, 300 zeros, 300 pseudo-random} bytes, "
         "delivered whole, byte-at-a-time and with every single cut (singles up to blocksize+1) or every cut next to a "
         "block / MAC / packet boundary (pairs); the cut region starts at the NEWKEYS packet so key switch and data may "
         "share a segment. (handshake) 7 banner variants x 4 IGNORE-payload variants before the version line / NEWKEYS, "
@@ -31,7 +31,7 @@ BOUNDS = {
     "quick": "all 108 configurations; singles 0..2bs+1 (1-cuts up to bs+1), pairs with boundary cuts, triples whole+bytewise; "
              "tamper: every byte x 2 masks of 1- and 2-packet streams, bytewise for the 1-packet stream",
     "thorough": "same with every 1-cut for all singles and pairs, boundary cuts for triples, bytewise tamper on both streams, "
-                "2-cuts on singles up to 8 bytes",
+                "2-cuts on singles up to 4 bytes",
 }
 ASSUMPTIONS = [
     "both transports are keyed with fixed material via SSHCiphers.setKeys and the transport's own NEWKEYS switch-over "
@@ -42,8 +42,8 @@ ASSUMPTIONS = [
     "the stream flowing (<= 1.1 MiB, the receiver's own packet limit is 1 MiB) before it demands the disconnect",
     "the observation point is SSHTransportBase.dispatchMessage (public, documented); KEXINIT is recorded, not processed",
 ]
-MIN = {"quick": {"evaluations": 150000, "nontrivial": 100000, "outcomes": 6},
-       "thorough": {"evaluations": 400000, "nontrivial": 300000, "outcomes": 6}}
+MIN = {"quick": {"evaluations": 280000, "nontrivial": 260000, "outcomes": 4},
+       "thorough": {"evaluations": 400000, "nontrivial": 300000, "outcomes": 4}}
 
 MSG_IGNORE, MSG_KEXINIT, MSG_NEWKEYS, MSG_DATA = 2, 20, 21, 94
 
@@ -192,7 +192,7 @@ def build_stream(cfg, banners, pre, post, seed):
     st.keyed_start = st.marks[nk - 1][2]
     st.expected = ([(MSG_KEXINIT, S.ourKexInitPayload[1:])] + [(MSG_IGNORE, p) for p in pre]
                    + [(MSG_NEWKEYS, b"")] + [(MSG_DATA, p) for p in post])
-    st.n_before_keyed = 2 + len(pre)
+    st.n_before_keyed = 2 + len(pre)      # KEXINIT, IGNOREs, NEWKEYS
     return st
 
 
@@ -264,7 +264,7 @@ def check_delivery(stats, cfg, st, lo, cuts, bytewise, seed, fam, wit):
     stats.evaluations += 1
     bad = judge_delivery(cfg, st, R, tr, cuts, bytewise, fam)
     if bytewise or any(inside(st, c) for c in cuts):
-        stats.nt((fam, cfg, wit.get("b"), wit.get("pre"), tuple(wit.get("post", ())), tuple(cuts), bytewise))
+        stats.nt((fam, cfg, wit.get("b"), wit.get("pre"), repr(wit.get("post")), tuple(cuts), bytewise))
     stats.outcome("delivered-intact" if not bad else "delivery-failed")
     for sig, detail in bad:
         w = dict(wit)
@@ -273,49 +273,74 @@ def check_delivery(stats, cfg, st, lo, cuts, bytewise, seed, fam, wit):
     return bad
 
 
+def _banner_mentions_ssh_cut(st, allcuts):
+    i = st.data.find(b"SSH-", 0, st.banner_len)
+    if i < 0:
+        return False
+    nl = st.data.find(b"\n", i)
+    return any(nl < c < st.version_end for c in allcuts)
+
+
+def cut_class(st, cfg, ngot, cuts, bytewise):
+    """Where the first cut inside the first undelivered packet fell, relative to that packet's structure."""
+    if bytewise:
+        return "bytewise"
+    if ngot + 1 >= len(st.marks):
+        return "after-last-packet"
+    lab, a, b = st.marks[ngot + 1]
+    bs = 8 if cfg[0] in (b"none", b"3des-cbc", b"3des-ctr") else 16
+    ms = DIGEST[cfg[1]]
+    inside_cuts = [c for c in cuts if a < c < b]
+    if not inside_cuts:
+        return "packet-not-cut"
+    off = inside_cuts[0] - a
+    if off < bs:
+        return "cut-in-first-block"
+    if off == bs:
+        return "cut-after-first-block"
+    if off < (b - a) - ms:
+        return "cut-in-body"
+    if off == (b - a) - ms:
+        return "cut-between-packet-and-mac"
+    return "cut-in-mac"
+
+
 def judge_delivery(cfg, st, R, tr, cuts, bytewise, fam):
     bad = []
     cls = diff_class(R.got, st.expected)
     disc = tr.disconnecting
     if cls is None and not disc:
         return bad
-    # shape of the failure: where did the first loss happen and where were the cuts
+    # shape of the failure: how far did the receiver get, and where were the cuts
     ngot = len(R.got)
-    if ngot < 1 + 0 and not getattr(R, "gotVersion", True) or (disc and ngot == 0):
-        phase = "version-exchange"
-    elif ngot < st.n_before_keyed + 1:
-        phase = "unkeyed-packets"
-    else:
-        phase = "keyed-packets"
     allcuts = list(range(1, len(st.data))) if bytewise else list(cuts)
-    if phase == "version-exchange":
-        if any(0 < c <= st.banner_len and st.data[c - 1:c] == b"\n" for c in allcuts):
+    if ngot == 0:
+        phase = "version-exchange"
+        ssh_pos = st.data.find(b"\nSSH-", st.version_end)
+        if any(8 <= c <= st.banner_len and st.data[c - 1:c] == b"\n" for c in allcuts):
+            # a delivery ended right after a complete banner line (>= one cipher block of text so far)
             shape = "segment-ends-after-complete-banner-line"
+        elif _banner_mentions_ssh_cut(st, allcuts):
+            # a banner line has "SSH-" in its middle and a delivery ended after that line, before the version line was complete
+            shape = "banner-line-mentioning-SSH-then-segment-ends-before-version-line-complete"
+        elif 0 <= ssh_pos < st.keyed_start and not any(st.version_end <= c < ssh_pos + 5 for c in allcuts):
+            shape = "unkeyed-payload-containing-SSH-line-arrives-with-version-line"
         elif st.banner_len:
             shape = "banner-other"
         else:
             shape = "no-banner"
-    elif phase == "unkeyed-packets":
-        ssh_in_payload = any(b"\nSSH-" in p for _, p in st.expected[:st.n_before_keyed])
-        version_with_payload = not any(st.version_end <= c <= payload_ssh_pos(st) for c in allcuts) if ssh_in_payload else False
-        if ssh_in_payload and version_with_payload:
-            shape = "payload-with-SSH-line-in-same-segment-as-version-line"
-        else:
-            shape = "other"
+    elif ngot < st.n_before_keyed:
+        phase = "unkeyed-packets"
+        shape = "other"
     else:
-        shape = "%s/%s/%s" % tuple(x.decode() for x in cfg)
+        phase = "keyed-packets"
+        shape = cut_class(st, cfg, ngot, cuts, bytewise)
     what = "disconnect" if disc else cls
-    detail = "dispatched %d of %d payloads (%s)%s; cuts=%s; receiver wrote %r" % (
-        ngot, len(st.expected), cls, ", receiver disconnected" if disc else "",
+    detail = "%s: dispatched %d of %d payloads (%s)%s; cuts=%s; receiver wrote %r" % (
+        "/".join(x.decode() for x in cfg), ngot, len(st.expected), cls, ", receiver disconnected" if disc else "",
         "bytewise" if bytewise else list(cuts), tr.value()[-60:])
     bad.append(("%s:%s:%s" % (phase, what, shape), detail))
     return bad
-
-
-def payload_ssh_pos(st):
-    """Absolute position of the first '\\nSSH-' inside an unkeyed payload."""
-    i = st.data.find(b"\nSSH-", st.version_end)
-    return i if i >= 0 else len(st.data)
 
 
 def boundary_cuts(st, cfg):
@@ -350,9 +375,18 @@ def run_packets(stats, cfg, tier, seed):
         if n <= bs + 1 or thorough:
             for c in range(lo + 1, len(st.data)):
                 check_delivery(stats, cfg, st, lo, (c,), False, seed, "packets", wit)
-        if thorough and n <= 8:
+        if thorough and n <= 4:
             for c1, c2 in itertools.combinations(range(lo + 1, len(st.data)), 2):
                 check_delivery(stats, cfg, st, lo, (c1, c2), False, seed, "packets", wit)
+    # one large payload (length field needs three bytes; several zlib blocks)
+    post = [("r", 70000)]
+    st = build_stream(cfg, (), (), [payload_bytes(s, seed) for s in post], seed)
+    lo = st.newkeys_start
+    wit = {"b": 0, "pre": 0, "post": [list(s) for s in post]}
+    check_delivery(stats, cfg, st, lo, (), False, seed, "packets", wit)
+    for c in boundary_cuts(st, cfg) + [st.keyed_start + 32768, st.keyed_start + 65536]:
+        if c < len(st.data):
+            check_delivery(stats, cfg, st, lo, (c,), False, seed, "packets", wit)
     # sequences
     a = (bs - 10) % bs      # padding length 4 (minimum) without compression
     b = (bs - 9) % bs       # padding length blocksize + 3 (maximum)
@@ -423,7 +457,7 @@ def check_tamper(stats, cfg, st, pos, mask, bytewise, seed, wit):
     R, tr, fed = receive(cfg, seed, segs, tail=TAIL)
     stats.evaluations += 1
     lab, where = tamper_where(st, cfg, pos)
-    k = st.n_before_keyed + 1 + int(lab[4:])       # index in expected of the altered packet
+    k = st.n_before_keyed + int(lab[4:])       # index in expected of the altered packet
     bad = []
     got = R.got
     shape = "%s:%s" % (where, "bytewise" if bytewise else "whole")
@@ -437,7 +471,7 @@ def check_tamper(stats, cfg, st, pos, mask, bytewise, seed, wit):
     if not tr.disconnecting:
         bad.append(("tamper:no-disconnect:%s" % shape,
                     "altered byte %d (%s of %s) xor %#x: no disconnect after %d further bytes" % (pos, where, lab, mask, fed)))
-    stats.nt(("tamper", cfg, tuple(wit["post"]), pos, mask, bytewise))
+    stats.nt(("tamper", cfg, repr(wit["post"]), pos, mask, bytewise))
     stats.outcome("tamper-detected%s" % ("-after-more-data" if fed else "") if not bad else "tamper-missed")
     for sig, detail in bad:
         w = dict(wit)
